@@ -257,6 +257,10 @@ func executeSpec(spec *CheckSpec, tier string, overlay map[string][]byte) (*runR
 	}
 	var jobs []job
 	for _, fs := range fns {
+		if ct := cs.Funcs[fs.Name]; ct != nil && ct.Flag("trusted") {
+			// an assumed contract: used at call sites, never verified (listed with the external specs)
+			continue
+		}
 		var found *eng.Program
 		for _, p := range rr.Progs {
 			if p.Funcs[fs.Name] != nil {
